@@ -62,6 +62,7 @@ type netSched struct {
 	longProb float64
 	slowLink map[[2]int]time.Duration
 	dupProb  float64
+	lossy    map[[2]int]bool // directed links that lose about half of their messages
 
 	partSide  map[peer.ID]int
 	partFrom  time.Time
@@ -77,8 +78,8 @@ type netSched struct {
 	pendingPS atomic.Int64 // partial-signature envelopes queued or being delivered
 
 	// stats
-	sent, delivered, dups, droppedCrash, heldByPartition, reordered int64
-	lastDeliveredSeq                                                map[[2]int]int64
+	sent, delivered, dups, droppedCrash, heldByPartition, reordered, droppedLossy int64
+	lastDeliveredSeq                                                              map[[2]int]int64
 }
 
 func newNetSched(w *world, rng *rand.Rand) *netSched {
@@ -103,6 +104,13 @@ func newNetSched(w *world, rng *rand.Rand) *netSched {
 	case "bursty":
 		s.baseMax = 150 * time.Millisecond
 		s.longProb = 0.08
+	}
+	s.lossy = map[[2]int]bool{}
+	for k := 0; k < w.p.LossyLinks; k++ {
+		a, b := rng.Intn(w.n), rng.Intn(w.n)
+		if a != b {
+			s.lossy[[2]int{a, b}] = true
+		}
 	}
 	if w.p.Partition != "" {
 		for _, id := range w.ids {
@@ -145,6 +153,12 @@ func (s *netSched) policy(e *fakenet.Envelope) fakenet.Verdict {
 	}
 	if s.crashed[e.From] || s.crashed[e.To] {
 		s.droppedCrash++
+		s.mu.Unlock()
+
+		return fakenet.Drop
+	}
+	if e.Proto == protoParSigEx && s.lossy[[2]int{s.w.idxOf[e.From], s.w.idxOf[e.To]}] && !s.flushing && s.rng.Intn(2) == 0 {
+		s.droppedLossy++
 		s.mu.Unlock()
 
 		return fakenet.Drop
